@@ -267,9 +267,9 @@ def check_property(pid, tier, seed, shared=None):
 
     if tier == 'thorough':
         from . import thorough
-        tt, _ = thorough.tightness(pid, workers=3)
+        tt, _ = thorough.tightness(pid, workers=5)
         ev['coverage']['tightness_mutants'] = tt
-        ev['coverage']['seeded_changes_regression'] = thorough.seeds(pid, workers=3)
+        ev['coverage']['seeded_changes_regression'] = thorough.seeds(pid, workers=5)
         ev['coverage']['harmless_changes_regression'] = thorough.harmless_for(G, pid, cap=8, workers=4, seed=int(seed or 0))
         from . import automut
         ev['coverage']['systematic_mutants'] = automut.for_property(G, pid, cap=24, workers=5, seed=int(seed or 0))
